@@ -21,10 +21,20 @@ differential is re-run on a probe set for all four draft classes.  The
 registries are snapshotted before and restored (and the restoration verified)
 after every history.
 
-Part T (threads): check_schema of two different draft classes in two real
-threads under the baton scheduler of mc/explore/threads.py, every schedule
-with at most two preemptions at call granularity; expected verdicts from the
-same oracle.
+Part P (derived dialects used first, pristine processes): dialects made by
+Python SUBCLASSING of the draft classes (TYPE_CHECKER / VALIDATORS /
+META_SCHEMA overridden as class attributes), instances with an assigned
+TYPE_CHECKER, the registrations of part H, and the draft class itself, each
+merely *used* (check_schema, validation, is_type); every sequence up to depth
+2 runs in its own child forked from a fresh interpreter that has executed
+nothing of the package (order of first use), followed by the differential.
+
+Part T (threads): check_schema in two real threads under the baton scheduler
+of mc/explore/threads.py -- two different draft classes, and ONE draft class
+on the same schema object / on two schemas sharing a nested subschema object /
+on equal copies (valid and invalid variants, all four drafts); every schedule
+with at most `bound` preemptions at call granularity; expected verdicts from
+the same oracle.
 """
 import copy
 import itertools
@@ -343,14 +353,14 @@ def reg_same(snap):
 def probes():
     """The reduced candidate set of part H: every kind of dialect of the alphabet changes the verdict on some."""
     out = [[], "a", 1, None, {}]
-    vals = ["3", 3, -1, "a", [], {}, {"a": 7}, True, {"a": {"x-note": 1}}]
+    vals = ["3", 3, -1, "a", 2.0, [], {}, {"a": 7}, True, {"a": {"x-note": 1}}]
     kws = ["minLength", "maxItems", "multipleOf", "divisibleBy", "type", "properties", "items", "required", "enum",
            "pattern", "additionalProperties", "dependencies", "x-note"]
     for k in kws:
         for w in vals:
             out.append({k: w})
     for k in ("minLength", "type", "properties", "pattern", "x-note", "required"):
-        for w in vals[:4]:
+        for w in vals[:5]:
             out.append({"properties": {"a": {k: w}}})
     for k in ("minLength", "type", "x-note"):
         for w in vals[:4]:
@@ -491,6 +501,236 @@ def hist_violation(ctx, ops, bad_all):
     return out
 
 
+# ---- part P: derived dialects that are merely USED, in pristine processes ---------------------------------
+# A dialect need not be registered to matter: a Python subclass of a public draft class (overriding TYPE_CHECKER,
+# VALIDATORS or META_SCHEMA as class attributes), or an instance with an assigned TYPE_CHECKER, shares whatever the
+# draft class keeps at class level.  And who uses a thing FIRST matters for anything filled in lazily: a pool worker
+# has long used the draft classes, so every history of this part runs in its own child forked from a fresh
+# interpreter that has imported the package and executed nothing (mc/explore/isolated.py).
+SUB_KINDS = ["sub-int-lenient", "sub-int-strict", "sub-num-str", "sub-anystr", "sub-few", "sub-notype",
+             "sub-meta-loose", "sub-meta-strict"]
+INST_KINDS = ["inst-tc-lenient", "inst-tc-strict"]
+P_USES = ["cs", "val"]
+
+
+def p_ops():
+    """(kind, draft, use): 'first' = the draft class itself is used; sub-* = a Python subclass of it; inst-* = an
+    instance of it with an assigned TYPE_CHECKER; reg-* = the registrations of part H (the new class is used)."""
+    out = []
+    for d in _e1.DRAFTS:
+        out += [("first", d, u) for u in P_USES]
+        out += [(k, d, u) for k in SUB_KINDS for u in P_USES]
+        out += [(k, d, "val") for k in INST_KINDS]
+        out += [("reg-" + k, d, "cs") for k in OP_KINDS]
+    return out
+
+
+def _integral(checker, instance):
+    if isinstance(instance, bool):
+        return False
+    return isinstance(instance, int) or (isinstance(instance, float) and instance.is_integer())
+
+
+def _strictly_int(checker, instance):
+    return isinstance(instance, int) and not isinstance(instance, bool)
+
+
+def _numeral(base, name):
+    def check(checker, instance):
+        return (isinstance(instance, str) and instance.isdigit()) or base.is_type(instance, name)
+    return check
+
+
+def p_dialect(kind, d):
+    """-> a function schema -> validator object, and the class whose check_schema the 'cs' use calls."""
+    D = _e1.CLS[d]
+    tc = D.TYPE_CHECKER
+    if kind == "first":
+        return D, D
+    if kind.startswith("reg-"):
+        X = apply_op(kind[4:], d)
+        return X, X
+    if kind.startswith("inst-tc-"):
+        new = tc.redefine("integer", _integral if kind.endswith("lenient") else _strictly_int)
+
+        def mk(schema):
+            v = D(schema)
+            v.TYPE_CHECKER = new
+            return v
+        return mk, None
+    attrs = {
+        "sub-int-lenient": lambda: {"TYPE_CHECKER": tc.redefine("integer", _integral)},
+        "sub-int-strict": lambda: {"TYPE_CHECKER": tc.redefine("integer", _strictly_int)},
+        "sub-num-str": lambda: {"TYPE_CHECKER": tc.redefine_many({"integer": _numeral(tc, "integer"),
+                                                                  "number": _numeral(tc, "number")})},
+        "sub-anystr": lambda: {"TYPE_CHECKER": tc.redefine_many({"string": lambda c, i: True,
+                                                                 "object": lambda c, i: False})},
+        "sub-few": lambda: {"VALIDATORS": {"enum": _only_enum}},
+        "sub-notype": lambda: {"VALIDATORS": {k: v for k, v in D.VALIDATORS.items() if k not in ("type", "$ref")}},
+        "sub-meta-loose": lambda: {"META_SCHEMA": {_idkey(D): D.META_SCHEMA[_idkey(D)]}},
+        "sub-meta-strict": lambda: {"META_SCHEMA": dict(D.META_SCHEMA, additionalProperties=False)},
+    }[kind]()
+    X = type("C11" + kind.title().replace("-", "") + "Draft%d" % d, (D,), attrs)
+    return X, X
+
+
+P_USE_PROBES = [{"minLength": 2.0}, {"minLength": 2}, {"minLength": "3"}, {"maxItems": 2.5}, {"type": "integer"},
+                {"type": ["string", "null"]}, {"properties": {"a": {"x-note": 1, "maxLength": 1.0}}}, {"pattern": 7},
+                {"items": [{"multipleOf": "2"}]}, {"required": ["a"]}, {"enum": [1]}, [], {}]
+P_USE_TYPES = ["integer", "number", "string", "object", "array", "boolean", "null", "any"]
+P_USE_INSTANCES = [None, True, 0, 2, 2.0, 2.5, "3", "a", [], {}]
+
+
+def p_use(mk, cls, use):
+    """Use a dialect; whatever it answers or raises is its own business."""
+    if use == "cs":
+        for c in P_USE_PROBES:
+            try:
+                cls.check_schema(c)
+            except Exception:
+                pass
+        return
+    try:
+        plain = mk({})
+    except Exception:
+        return
+    for t in P_USE_TYPES:
+        try:
+            typed = mk({"type": t})
+        except Exception:
+            continue
+        for x in P_USE_INSTANCES:
+            try:
+                typed.is_valid(x)
+            except Exception:
+                pass
+            try:
+                plain.is_type(x, t)
+            except Exception:
+                pass
+    try:
+        list(mk({"properties": {"a": {"type": "integer", "minimum": 1}}, "minLength": 1}).iter_errors({"a": 2.0}))
+    except Exception:
+        pass
+
+
+P_OTHERS = 8        # probes for the draft classes no operation of the history derives from
+
+
+def p_child(item):
+    """Child side: one history from the pristine state; then the differential for the four draft classes."""
+    ctx, ops, only = _p_ctx, item["ops"], item.get("only")
+    failed = []
+    for kind, d, use in ops:
+        try:
+            mk, cls = p_dialect(kind, d)
+        except Exception as e:
+            failed.append([kind, d, use, type(e).__name__])
+            continue
+        p_use(mk, cls, use)
+    touched = {d for _, d, _ in ops}
+    P = probe_table(ctx)
+    ev, bad = 0, []
+    for d in _e1.DRAFTS:
+        if only is not None and d != only[0]:
+            continue
+        cls = _e1.CLS[d]
+        M = meta(d, ctx.repo)
+        if only is None or only[1] == "own-metaschema":
+            ev += 1
+            got = outcome(cls, M)
+            if got is not True or cls.META_SCHEMA != M:
+                bad.append([d, "own-metaschema", got if got is not True else "META_SCHEMA attribute changed", True])
+        if only is not None:
+            idx = [only[1]] if only[1] != "own-metaschema" else []
+        else:
+            idx = range(len(P) if d in touched else min(P_OTHERS, len(P)))
+        for i in idx:
+            exp = _probe_exp[d][i]
+            if exp is None:
+                continue
+            ev += 1
+            got = outcome(cls, P[i])
+            if got != exp:
+                bad.append([d, i, got, exp])
+    return {"ev": ev, "bad": bad, "failed_ops": failed}
+
+
+_p_ctx = None
+
+
+def p_histories(tier):
+    ops = p_ops()
+    for o in ops:
+        yield [o]
+    for a in ops:
+        for b in ops:
+            if tier != "quick" or a[1] == b[1]:
+                yield [a, b]
+
+
+def p_nursery(arg):
+    """Nursery side (fresh interpreter, nothing of the package executed yet): every history of the shard in its own
+    forked child; disagreeing histories are shrunk (again one child per attempt)."""
+    global _p_ctx
+    from mc.core import harness
+    from mc.explore import isolated
+    repo = os.path.realpath(os.environ.get("VERIF_REPO", "/repo"))
+    ctx = _p_ctx = harness.Ctx(arg["tier"], 0, 1, repo)
+    probe_table(ctx)                       # reference only: executes nothing of the package
+    if "replay" in arg:
+        case = arg["replay"]
+        c = case["candidate"]
+        what = "own-metaschema" if isinstance(c, str) and c.startswith("metaschema-of-draft-") else (
+            [json.dumps(q) for q in _probes].index(json.dumps(c)))
+        r = isolated.fork_each([{"ops": case["history"], "only": [case["draft"], what]}], p_child)[0]
+        return {"reproduced": bool(r["bad"]), "mismatches": r["bad"]}
+    hs = [h for i, h in enumerate(p_histories(arg["tier"])) if i % arg["n"] == arg["shard"]]
+    res = isolated.fork_each([{"ops": h} for h in hs], p_child)
+    out = {"evaluations": 0, "histories": len(hs), "violations": [], "outcomes": {}}
+    oc = out["outcomes"]
+    for h, r in zip(hs, res):
+        out["evaluations"] += r["ev"]
+        key = "pristine-history-depth-%d:%s" % (len(h), "DISAGREE" if r["bad"] else "agree")
+        oc[key] = oc.get(key, 0) + 1
+        if r["failed_ops"]:
+            oc["pristine:operation-raised(skipped)"] = oc.get("pristine:operation-raised(skipped)", 0) + 1
+        for d in _e1.DRAFTS:
+            bad = [b for b in r["bad"] if b[0] == d]
+            if not bad:
+                continue
+            _, what, got, exp = bad[0]
+            small = list(h)
+            changed = True
+            while changed and len(small) > 1:
+                changed = False
+                for i in range(len(small)):
+                    cand = small[:i] + small[i + 1:]
+                    rr = isolated.fork_each([{"ops": cand, "only": [d, what]}], p_child)[0]
+                    if rr["bad"]:
+                        small, changed, got = cand, True, rr["bad"][0][2]
+                        break
+            rel = sorted({"%s/%s:%s" % (k, u, "same-draft" if dd == d else "other-draft") for k, dd, u in small})
+            sig = "C11|after-using-derived-dialects-first|%s|%s" % (
+                "own-metaschema-rejected" if what == "own-metaschema" else kind_of(got, exp), "+".join(rel))
+            cand = "metaschema-of-draft-%d" % d if what == "own-metaschema" else _probes[what]
+            out["violations"].append({
+                "signature": sig, "size": 10 * len(small) + len(json.dumps(cand)) // 20,
+                "case": {"part": "P", "history": [list(o) for o in small], "draft": d, "candidate": cand,
+                         "tier": arg["tier"]},
+                "detail": {"check_schema": got, "reference": exp, "explored_history": [list(o) for o in h],
+                           "probes_disagreeing_for_this_class_in_this_state": len(bad)}})
+    return out
+
+
+def run_pris_unit(unit, ctx):
+    from mc.explore import isolated
+    _, shard, n = unit
+    r = isolated.run("mc.props.c11", "p_nursery", {"tier": ctx.tier, "shard": shard, "n": n})
+    return {"evaluations": r["evaluations"], "nontrivial": r["evaluations"], "violations": r["violations"],
+            "samples": [], "outcomes": r["outcomes"], "counters": {"pristine_histories": r["histories"]}}
+
+
 # ---- part T: check_schema of different drafts in concurrent threads ------------------------------------
 T_CANDS = {
     # one accepted and one rejected candidate per draft, both judged through a $ref of the metaschema
@@ -504,28 +744,70 @@ T_CANDS = {
 ACC, REJ, BOTH = (0,), (1,), (0, 1)
 
 
+SAME_VARIANTS = ("same", "nested", "copies")
+SAME_SUB = {"valid": {"type": "string", "minLength": 1}, "invalid": {"minLength": -1}}
+
+
+def same_schemas(variant, validity):
+    """Fresh schema objects for two threads that check with the SAME draft class:
+    same    both threads check the very same schema object;
+    nested  two different schemas that contain the same subschema object (shared by identity);
+    copies  two equal schemas that share no container (only interned atoms such as small ints and strings)."""
+    sub = copy.deepcopy(SAME_SUB[validity])
+    a = {"properties": {"item": sub}}
+    if variant == "same":
+        return [a, a]
+    if variant == "nested":
+        return [a, {"patternProperties": {"a": sub}}]
+    if variant == "copies":
+        return [a, copy.deepcopy(a)]
+    raise KeyError(variant)
+
+
+def is_same(thr):
+    return thr[0] == "same"
+
+
 def t_configs(tier):
-    """((draft, which of its two candidates), ...) per thread, granularity, preemption bound."""
+    """thread spec, granularity, preemption bound.  A spec is ((draft, which of its two candidates), ...) for
+    threads with different draft classes, or ("same", draft, variant, validity) for two threads with one class."""
+    same = [("same", d, v, val) for d in _e1.DRAFTS for v in SAME_VARIANTS for val in ("invalid", "valid")]
     if tier == "quick":
-        return [(((4, ACC), (7, REJ)), "call", 2), (((3, REJ), (6, ACC)), "call", 2),
-                (((4, BOTH), (7, BOTH)), "call", 1), (((6, BOTH), (3, BOTH)), "call", 1)]
+        out = [(((4, ACC), (7, REJ)), "call", 2), (((3, REJ), (6, ACC)), "call", 1),
+               (((4, BOTH), (7, BOTH)), "call", 1), (((6, BOTH), (3, BOTH)), "call", 1)]
+        out += [(sp, "call", 1) for sp in same]
+        out += [(("same", 3, "nested", "invalid"), "call", 2)]
+        return out
     out = []
     for a, b in itertools.permutations(_e1.DRAFTS, 2):
         out.append((((a, ACC), (b, REJ)), "call", 2))
         out.append((((a, BOTH), (b, BOTH)), "call", 1))
     out += [(((4, ACC), (7, ACC)), "call", 2), (((6, REJ), (3, REJ)), "call", 2),
             (((4, ACC), (6, REJ), (7, ACC)), "call", 1), (((7, ACC), (4, REJ)), "line", 1)]
+    out += [(sp, "call", 2) for sp in same]
+    out += [(("same", 4, "nested", "invalid"), "line", 1), (("same", 7, "same", "invalid"), "line", 1)]
     return out
 
 
-def t_bodies(threads_):
+def t_bodies(thr):
+    if is_same(thr):
+        _, d, variant, validity = thr
+        cls = _e1.CLS[d]
+        schemas_ = same_schemas(variant, validity)       # fresh per schedule, shared between its two threads
+
+        def mk_same(S):
+            def body():
+                return (t_outcome(cls, S),)
+            return body
+        return [mk_same(S) for S in schemas_]
+
     def mk(d, which):
         cls = _e1.CLS[d]
 
         def body():
             return tuple(t_outcome(cls, copy.deepcopy(T_CANDS[d][i])) for i in which)
         return body
-    return [mk(d, which) for d, which in threads_]
+    return [mk(d, which) for d, which in thr]
 
 
 SCHED = "SCHEDULER: prefix not replayable"
@@ -553,28 +835,48 @@ def t_expected(ctx, d, which=BOTH):
     return tuple(not spec.errs(d, M, T_CANDS[d][i]) for i in which)
 
 
-def t_check(ctx, threads_):
-    exp = [t_expected(ctx, d, which) for d, which in threads_]
+def t_check(ctx, thr):
+    if is_same(thr):
+        _, d, variant, validity = thr
+        M = meta(d, ctx.repo)
+        cands = same_schemas(variant, validity)
+        exp = [(not spec.errs(d, M, c),) for c in cands]
+        drafts = [d, d]
+        shown = [[c] for c in cands]
+    else:
+        exp = [t_expected(ctx, d, which) for d, which in thr]
+        drafts = [d for d, _ in thr]
+        shown = [[T_CANDS[d][j] for j in which] for d, which in thr]
 
     def check(results):
-        for i, (d, which) in enumerate(threads_):
+        for i, d in enumerate(drafts):
             if results[i] != exp[i]:
-                return {"thread": i, "draft": d, "candidates": [T_CANDS[d][j] for j in which],
-                        "got": results[i], "expected": exp[i]}
+                return {"thread": i, "draft": d, "candidates": shown[i], "got": results[i], "expected": exp[i]}
         return None
+    check.expected = exp
     return check
 
 
-def t_warm(threads_):
+def t_warm(thr):
     """Run the bodies sequentially twice, so that whatever the first call of a kind builds lazily exists before the
     root run and before every explored schedule alike (cold start is C18's part D)."""
     for _ in range(2):
-        for b in t_bodies(threads_):
+        for b in t_bodies(thr):
             b()
 
 
-def t_name(threads_):
-    return "+".join("d%d:%s" % (d, "".join("ar"[i] for i in which)) for d, which in threads_)
+def t_name(thr):
+    if is_same(thr):
+        return "d%d+d%d:%s-%s" % (thr[1], thr[1], thr[2], thr[3])
+    return "+".join("d%d:%s" % (d, "".join("ar"[i] for i in which)) for d, which in thr)
+
+
+def t_json(thr):
+    return list(thr) if is_same(thr) else [[d, list(w)] for d, w in thr]
+
+
+def t_unjson(j):
+    return tuple(j) if j[0] == "same" else tuple((d, tuple(w)) for d, w in j)
 
 
 # ---- plan / run ---------------------------------------------------------------------------------------
@@ -589,11 +891,18 @@ def plan(ctx):
     nh = sum(len(OPS) ** k for k in range(1, hist_depth(ctx) + 1))
     hs = 48 if ctx.tier == "quick" else 256
     units += [("hist", i, hs) for i in range(hs)]
+    ps = 32 if ctx.tier == "quick" else 128
+    units += [("pris", i, ps) for i in range(ps)]
+    n_pris = sum(1 for _ in p_histories(ctx.tier))
     sizes = {}
     for ci, (thr, gran, bound) in enumerate(t_configs(ctx.tier)):
-        for d, which in thr:
-            e = t_expected(ctx, d)
-            assert e == (True, False), (d, e)
+        if is_same(thr):
+            e = t_check(ctx, thr).expected
+            assert e == [(thr[3] == "valid",)] * 2, (thr, e)
+        else:
+            for d, which in thr:
+                e = t_expected(ctx, d)
+                assert e == (True, False), (d, e)
         t_warm(thr)
         npts = None
         for _ in range(5):          # the scheduler's wall-clock stall monitor can misfire on a busy machine
@@ -637,13 +946,26 @@ def plan(ctx):
                  "checker redefining integer/number resp. string/object, same id + empty table, other id, plain "
                  "copy), each replayed on the restored registries, a mini check after every non-final step and "
                  "the full probe differential for all four draft classes after the last; registries restored "
-                 "and the restoration verified after every history.  part T: check_schema of two (three) "
-                 "different draft classes in real threads, one accepted and one rejected candidate each, every "
-                 "schedule with <= bound preemptions at call granularity.  non-trivial = candidates the reference "
-                 "decides (all distinct) + probe evaluations in registry states + schedules with a preemption"),
+                 "and the restoration verified after every history.  part P: operations (kind, draft, use) with "
+                 "kind in {the draft class itself; 8 Python subclasses of it overriding TYPE_CHECKER (integral floats "
+                 "are integers / only ints are / numerals are numbers / everything is a string), VALIDATORS (one "
+                 "keyword / no type and $ref) or META_SCHEMA (id only / no unknown keywords); an instance with an "
+                 "assigned TYPE_CHECKER (2); the 8 registrations of part H} and use in {check_schema on 13 schemas; "
+                 "is_valid and is_type over 8 type names x 10 instances}: every single operation and every ordered "
+                 "pair (quick: pairs on the same draft), each history in its own child forked from a fresh "
+                 "interpreter that has imported the package and executed nothing of it, then the probe differential "
+                 "(all probes for the drafts the history derives from, 8 + own metaschema for the others).  "
+                 "part T: check_schema in real threads under a baton scheduler, every schedule with <= bound "
+                 "preemptions at call granularity: two (three) different draft classes, one accepted and one "
+                 "rejected candidate each; and two threads with the SAME draft class x 4 drafts x {the same schema "
+                 "object, two schemas sharing a nested subschema object, equal copies} x {valid, invalid} "
+                 "(objects shared by identity between the threads; quick: bound 1, bound 2 for one configuration; "
+                 "thorough: bound 2 for all).  non-trivial = candidates the reference decides (all distinct) + "
+                 "probe evaluations in registry / pristine states + schedules with a preemption"),
         "bounds": dict(sizes, candidates_per_draft=len(cands), W=len(W), keywords=len(KW),
                        positions=len(WRAP if ctx.thorough else WRAP[:16]), tier=ctx.tier,
                        history_depth=hist_depth(ctx), history_ops=len(OPS), histories=nh, probes=len(_probes),
+                       pristine_ops=len(p_ops()), pristine_histories=n_pris,
                        thread_configs=["%s %s bound=%d" % (t_name(c[0]), c[1], c[2]) for c in t_configs(ctx.tier)],
                        **{"family_" + k: v for k, v in fam.items()}),
         "assumptions": ["reference evaluator mc/ref/spec.py (handles $ref '#' and '#/definitions/...', draft 3 "
@@ -652,7 +974,10 @@ def plan(ctx):
                         "non-finite number is a number and not an integer (mc/ref/nonfinite.py)",
                         "part H: expected verdicts of the draft classes do not depend on the registry state (the "
                         "property ties them to the bundled metaschema); dialect classes themselves are not judged",
-                        "part T: preemption only at Python call boundaries inside the package"],
+                        "part P: a forked child of a fresh interpreter that imported jsonschema and mc.props.c11 "
+                        "is in the state of a new process (importing the property module executes no check_schema)",
+                        "part T: preemption only at Python call boundaries inside the package; a thread problem is "
+                        "reported only if the identical schedule reproduces it twice more"],
     }
 
 
@@ -719,6 +1044,8 @@ def run_unit(unit, ctx):
         return run_hist_unit(unit, ctx)
     if d == "thr":
         return run_thr_unit(unit, ctx)
+    if d == "pris":
+        return run_pris_unit(unit, ctx)
     cands = candidates(ctx)
     M = meta(d, ctx.repo)
     cls = _e1.CLS[d]
@@ -829,8 +1156,9 @@ def run_thr_unit(unit, ctx):
         what = "crash-" + "+".join(sorted({g[4:] for g in got if isinstance(g, str)})) if (
             isinstance(got, tuple) and any(isinstance(g, str) for g in got)) else (
             "wrong-verdict" if isinstance(got, tuple) and got[:1] != ("EXC",) else "thread-died")
-        viol.append({"signature": "C11|threads-check_schema|%s|%s" % (gran, what), "size": len(choices),
-                     "case": {"part": "T", "threads": [[d, list(w)] for d, w in thr], "granularity": gran,
+        viol.append({"signature": "C11|threads-check_schema%s|%s|%s" % (
+            "-same-class-%s" % thr[2] if is_same(thr) else "", gran, what), "size": len(choices),
+                     "case": {"part": "T", "threads": t_json(thr), "granularity": gran,
                               "choices": choices},
                      "detail": bad})
     outcomes = {"threads:preemptions=%d" % k: v for k, v in r["by_preemptions"].items()}
@@ -859,7 +1187,7 @@ def shape(c, depth=0):
 def replay(case, ctx):
     part = case.get("part")
     if part == "T":
-        thr = tuple((d, tuple(w)) for d, w in case["threads"])
+        thr = t_unjson(case["threads"])
         t_warm(thr)
         sc = threads.Sched(t_bodies(thr), case["choices"], PKG, case["granularity"])
         try:
@@ -869,6 +1197,9 @@ def replay(case, ctx):
         bad = t_check(ctx, thr)(results)
         return {"reproduced": bad is not None, "problem": bad}
     d, c = case["draft"], case["candidate"]
+    if part == "P":
+        from mc.explore import isolated
+        return isolated.run("mc.props.c11", "p_nursery", {"tier": case.get("tier", ctx.tier), "replay": case})
     if part == "H":
         global _base_snap
         probe_table(ctx)
